@@ -31,7 +31,7 @@ TITLE = "Mesh generator / order elevation / combine_mesh / file readers / create
 LEVEL = "model_checking"
 RULE = ("E-BFS over histories of mesh operations, depth <= 3, complete for the stated alphabets, de-duplicated on "
         "canon = hash(element type, degree, coordinates rounded to 1e-12, connectivity, blocks, node sets, side sets). "
-        "Initial states: construct_structured_mesh(Nx,Ny) for all 2<=Nx,Ny<=4 (thorough: also 2x5, 5x2, 5x5), "
+        "Initial states: construct_structured_mesh(Nx,Ny) for all 2<=Nx,Ny<=4 (thorough: also 2x5, 5x5), "
         "Delaunay(seed) of 6..9 points (thorough: a second seeded family), meshes with a hole; each with all 3^ne cyclic "
         "vertex rotations of the elements when ne<=4 and four (thorough: six) rotation patterns otherwise, with "
         "harness-attached node sets / side sets / two blocks and, unrotated, also exactly as the library generates it; "
@@ -92,7 +92,7 @@ def _geoms(tier):
     g = ["s%dx%d" % (nx, ny) for nx in range(2, 5) for ny in range(2, 5)]
     g += ["d6", "d7", "d8", "d9", "ring6", "ring8"]
     if tier != "quick":
-        g += ["s2x5", "s5x2", "s5x5", "e6", "e7", "e8", "e9", "grid4h"]
+        g += ["s2x5", "s5x5", "e7", "e9", "grid4h"]
     return g
 
 
@@ -157,9 +157,8 @@ def _fgeoms(tier):
 
 
 def _file_specs(geom, etype, nblk, tier):
-    rots = ["mix"] if tier == "quick" else ["mix", "gen"]
     out = []
-    for rot in rots:
+    for rot in ["mix"]:
         for naming in ("named", "unnamed", "mixed"):
             for presence in ("both", "nsonly", "ssonly", "none"):
                 for numbering in ("natural", "reversed"):
@@ -169,12 +168,12 @@ def _file_specs(geom, etype, nblk, tier):
 
 
 def _json_specs(geom, tier):
-    rots = ["id", "mix"] if tier == "quick" else ["id", "mix", "gen", "all2"]
+    rots = ["id", "mix"] if tier == "quick" else ["id", "mix", "gen"]
     return ["j:%s:%s:%s" % (geom, rot, sets) for rot in rots for sets in ("both", "empty")]
 
 
 def bounds(tier):
-    return {"depth": MAXD, "structured_sizes": "all 2..4 x 2..4" + ("" if tier == "quick" else " + 2x5, 5x2, 5x5"),
+    return {"depth": MAXD, "structured_sizes": "all 2..4 x 2..4" + ("" if tier == "quick" else " + 2x5, 5x5"),
             "geometries": _geoms(tier), "rotations": "all 3^ne for ne<=4, else %d patterns" % (4 if tier == "quick" else 6),
             "elevate_variants": {"depth0": ("%d (8 on exhaustive rotations other than id/all1/all2/mix)" % len(ELEV_FULL))
                                  if tier == "quick" else len(ELEV_FULL), "deeper": len(ELEV_SUB)},
